@@ -345,7 +345,7 @@ def evaluate(ctx, cases, asan=None):
     eqb = "list_eqb (list_eqb (pair_eqb (pair_eqb Bool.eqb Nat.eqb) Bool.eqb))"
     fexpr = ("fun ops => (fix odd (l : list (list (bool * nat * bool))) := match l with "
              "| _ :: x :: l' => x :: odd l' | _ => [] end) (trace init ops)")
-    badi, outs, err = vlib.coq_mismatches(["C21.Model"], fexpr, eqb, coqcases, shard=120)
+    badi, outs, err = vlib.coq_mismatches(["C21.Model"], fexpr, eqb, coqcases, shard=8, jobs=10)
     if err:
         ctx.obligation_broken("C21 model evaluation", err)
     for i in badi:
